@@ -16,6 +16,16 @@
       kind 0: query (a b)            obs (0 bool) | (1)
       kind 1: query (c ...)          obs (0 idx) | (1) error | (2) not found | (3) nil,nil
       kind 2: query (exact (root ...)) obs (status (popped ...)); exact = 0: popped sorted
+      kind 3: NewCommitsQueue(roots), then PopUntil(t) for each target in turn:
+              query (exact (root ...) (target ...))
+              obs (status (tobs ...) (remaining ...) (seen ...)), status 1 = NewCommitsQueue failed;
+              tobs = (0 (popped ...)) returned the target | (1 (popped ...)) EOF | (2 ()) error (stops;
+              remaining and seen are then reported empty); remaining = queue content afterwards,
+              seen = the seen set (sorted); exact = 0: popped and remaining sorted
+      kind 4: NewCommitsQueue(roots), npops x PopInsertParents (stopping at EOF), RemoveAncestors(sums):
+              query (exact (root ...) npops (sum ...))
+              obs (status (remaining ...) (seen ...)), status 1 = NewCommitsQueue failed, 2 = a pop failed,
+              3 = RemoveAncestors returned an error
       observation = (obs ...). *)
 From W.lib Require Import Tree GoSort.
 From W.model Require Import Graph Queue.
@@ -203,6 +213,32 @@ Fixpoint nins (x : N) (l : list N) : list N :=
   end.
 Definition nsort (l : list N) : list N := fold_right nins [] l.
 
+Definition ord (exact : bool) (l : list id) : list id := if exact then l else nsort l.
+
+Fixpoint pu_run (g : graph) (exact : bool) (q : cq) (ts : list id) (acc : list tree) : tree :=
+  match ts with
+  | [] => Node [Leaf 0; Node (rev acc); t_list t_id (ord exact (q_items q)); t_list t_id (nsort (q_seen q))]
+  | b :: r =>
+      match t_pop_until g q b with
+      | Ok (Some _, q', l) => pu_run g exact q' r (Node [Leaf 0; t_list t_id (ord exact l)] :: acc)
+      | Ok (None, q', l) => pu_run g exact q' r (Node [Leaf 1; t_list t_id (ord exact l)] :: acc)
+      | Err => Node [Leaf 0; Node (rev (Node [Leaf 2; Node []] :: acc)); Node []; Node []]
+      | Fuel => Node [Leaf 9]
+      end
+  end.
+
+(* npops x PopInsertParents, stopping at EOF; None = a pop failed *)
+Fixpoint pre_pops (g : graph) (n : nat) (q : cq) : option cq :=
+  match n with
+  | O => Some q
+  | S n' =>
+      match t_pop_insert_parents g q with
+      | PEof => Some q
+      | PErr => None
+      | POk _ q' => pre_pops g n' q'
+      end
+  end.
+
 Definition run_query (kind : nat) (g : graph) (q : tree) : tree :=
   match kind with
   | 0%nat =>
@@ -219,10 +255,30 @@ Definition run_query (kind : nat) (g : graph) (q : tree) : tree :=
       | SNil => Node [Leaf 3]
       | SFuel => Node [Leaf 9]
       end
-  | _ =>
+  | 2%nat =>
       let '(status, popped) := t_walk g (d_list d_N (d_nth 1 q)) in
       let popped' := if d_bool (d_nth 0 q) then popped else nsort popped in
       Node [t_nat status; t_list t_id popped']
+  | 3%nat =>
+      match t_new_queue g (d_list d_N (d_nth 1 q)) with
+      | Ok q0 => pu_run g (d_bool (d_nth 0 q)) q0 (d_list d_N (d_nth 2 q)) []
+      | _ => Node [Leaf 1; Node []; Node []; Node []]
+      end
+  | _ =>
+      let exact := d_bool (d_nth 0 q) in
+      match t_new_queue g (d_list d_N (d_nth 1 q)) with
+      | Ok q0 =>
+          match pre_pops g (d_nat (d_nth 2 q)) q0 with
+          | Some q1 =>
+              match t_remove_ancestors g q1 (d_list d_N (d_nth 3 q)) with
+              | Ok q2 => Node [Leaf 0; t_list t_id (ord exact (q_items q2)); t_list t_id (nsort (q_seen q2))]
+              | Err => Node [Leaf 3; Node []; Node []]
+              | Fuel => Node [Leaf 9]
+              end
+          | None => Node [Leaf 2; Node []; Node []]
+          end
+      | _ => Node [Leaf 1; Node []; Node []]
+      end
   end.
 
 Definition run_C11 (c : tree) : tree :=
